@@ -105,8 +105,9 @@ CLAIMED = {
              "identical or by such a coercion), `update_prims`, `update_array_lengths`; the four public relations are compared "
              "with the real functions on 64 000 type pairs (all pairs to depth 1, variants, random to depth 4), and the agreement "
              "positions (initialisation, assignment, argument, return, pointers, structure-literal members, member assignment, "
-             "array shapes, ragged literals) on all 13 x 13 type pairs through the compiler. Partial: the typer's inference "
-             "algorithm itself is not modelled (`update` is a transcription exercised through those programs).",
+             "array shapes, ragged literals) on all 13 x 13 type pairs through the compiler; `Ty.update` is compared with the "
+             "real `do_update_symbol` (guarded hook `verif_update_symbol`) on 130 000 (type, type, flags) requests. Partial: how the "
+             "typer walks a program and which pairs it unifies is not modelled (covered by the agreement-position programs).",
         note="Trusted: Lean kernel, transcription of resolver.rs tables (checked exhaustively cell by cell), the mutant generator. "
              "char8 counts as arithmetic-capable and usize is excluded from bitwise/shift, as the tables have it.",
         technique="Lean 4 proof (kernel-checked complete finite tables) + exhaustive matrix correspondence + typed mutants",
@@ -348,7 +349,7 @@ def main():
             "guard": "penne_verif",
             "enable": "RUSTFLAGS='--cfg penne_verif' (set by checks/lib.py when building harness/ against /repo)",
             "baseline_off_cmd": "cd /repo && cargo test --workspace --no-fail-fast --offline",
-            "source_commits": ["34afbae"],
+            "source_commits": ["34afbae", "f15b830"],
             "add_only": True,
         },
         "engines": [{
